@@ -830,6 +830,10 @@ class Interp:
                 kn.bounds[t] = T._iv_union(iv, iv2)
         kn.ineqs = [f for f in s1.kn.ineqs if f in s2.kn.ineqs]
         kn.ors = [a for a in s1.kn.ors if a in s2.kn.ors]
+        for t, ts in s1.kn.types.items():
+            ts2 = s2.kn.types.get(t)
+            if ts2 is not None:
+                kn.types[t] = ts | ts2
         for a in kn.atoms:
             if isinstance(a, Sym) and a.op == 'or' and a not in kn.ors:
                 kn.ors.append(a)
